@@ -83,10 +83,16 @@ func decodeFormat4(in []byte, code2rune func(c int) rune) (Subtable, error) {
 				}
 				return nil, errMalformedSubtable
 			}
+			delta := idDelta[k]
 			for idx := start; idx < end; idx++ {
-				c := glyph.ID(glyphIDArray[d+int(idx-start)])
+				c := glyphIDArray[d+int(idx-start)]
+				if c == 0 {
+					continue
+				}
+				// a non-zero array entry is offset by idDelta (modulo 65536)
+				c += delta
 				if c != 0 {
-					cmap[uint16(code2rune(int(idx)))] = c
+					cmap[uint16(code2rune(int(idx)))] = glyph.ID(c)
 				}
 			}
 		}
